@@ -122,6 +122,24 @@ def arith_script(rnd, allow_invalid=False):
         # the argument of OP_IF: anything but the empty string and the single byte 01 is refused in tapscript (always) and in witness v0 scripts (under MINIMALIF)
         arith_script.hint = 'MINIMALIF'
         return b'\x63\x51\x67\x51\x68', [rnd.choice([b'\x02', b'\x01\x00', b'\x00', b'\x01', b'', b'\x81', b'\x01\x01'])]
+    if r2 < 0.2 and allow_invalid:
+        # a script that is itself longer than a stack element may be (520 bytes) and around the script size limit (10,000 bytes; none for a tapscript
+        # leaf): as witness script / leaf it is not an element of the executed stack. (As a P2SH redeem script it would have to be pushed: invalid there.)
+        size = rnd.choice([521, 600, 1500, 9999, 10000, 10000, 10001, 10001, 12000])
+        unit = b'\x4d\x08\x02' + bytes([3]) * 520 + b'\x75'       # PUSHDATA2 <520 bytes> OP_DROP: 524 bytes
+        n = (size - 1) // len(unit)
+        fill = size - 1 - n * len(unit)
+        if fill > 150:
+            n, fill = max(0, n - 0), fill
+        body = unit * n
+        # the rest in pushes of up to 75 bytes followed by a DROP (few counted operations)
+        while fill >= 3:
+            k = min(75, fill - 2)
+            body += bytes([k]) + bytes([5]) * k + b'\x75'
+            fill -= k + 2
+        body += b'\x61' * fill + b'\x51'
+        arith_script.hint = None
+        return body, []
     arith_script.hint = None
     if rnd.random() < 0.12:
         # a keyless script of the pay-to-script-hash SHAPE whose argument is its hash preimage: as a witness script, tapscript leaf or P2SH redeem
@@ -300,7 +318,8 @@ def build(rnd, typ, ninputs=None, same_fund_decoy=False, allow_invalid=False):
         meta.update(annex=annex)
     elif typ == 'p2tr-script':
         sht = rnd.choice([0, 0, 1, 2, 3, 0x81, 0x83])
-        annex = (b'\x50' + bytes(rnd.getrandbits(8) for _ in range(rnd.randint(0, 5)))) if rnd.random() < 0.25 else None
+        # (an annex is not a stack element: it may be longer than 520 bytes, and it does not count towards the 1000 initial stack items)
+        annex = (b'\x50' + bytes(rnd.getrandbits(8) for _ in range(rnd.choice([0, 1, 2, 3, 4, 5, 5, 521, 600])))) if rnd.random() < 0.3 else None
         if 'pre_sht' in meta:
             sht, annex = meta['pre_sht'], meta['pre_annex']
         ls = meta['leaf_script']
